@@ -28,6 +28,14 @@ def run(tier, seed):
         for o in p["ops"]:
             if o["op"] == "req" and o["req"]["type"] == "func":
                 o["req"]["params"] = [{"p": "zeta"} if isinstance(e, dict) else e for e in o["req"]["params"]]
+        for o in p["ops"]:
+            if o["op"] == "req" and o["req"]["type"] == "func" and g.rng.random() < 0.5:
+                o["req"]["wrap"] = True
+        if any(o["op"] == "cv" for o in p["ops"]) and any(o["op"] == "req" and o["name"] == "cvA" for o in p["ops"]):
+            # a function of the computed-value output, referenced inside an expression
+            wl0 = [o for o in p["ops"] if o["op"] == "whitelist"]
+            p["ops"] = [o for o in p["ops"] if o["op"] != "whitelist"] + \
+                [{"op": "req", "name": "fcv", "save": True, "req": {"type": "func", "fn": 0, "sources": ["cvA", "cvA"], "params": ["3/4"], "wrap": True}}] + wl0
         chain = g.rng.random() < 0.5
         if chain:
             # a pruned function output (the only user of zeta) that reaches a kept output through a cumulative output,
